@@ -403,6 +403,45 @@ func init() {
 	reg("C06akestates", runTwin)
 	reg("C06firstuse", runTwin)
 	reg("C06akelossy", runTwin)
+	reg("C06midsmp", runTwin)
+}
+
+// TestProp_C06_MidSMP: an SMP run is at each of its points (request delivered, answered, third message delivered) when
+// a rejected input of each kind (key-exchange messages replayed, cut short, relabelled, re-addressed; damaged data
+// messages) reaches either side; the run must go on and end exactly as it would have.
+func TestProp_C06_MidSMP(t *testing.T) {
+	si, sn := sim.Shard()
+	idx := 0
+	for _, v := range []int{3, 2} {
+		for init := 0; init < 2; init++ {
+			for point := 0; point < 3; point++ {
+				ops := []SOp{{K: "pp", W: 0, L: 5}, {K: "smp", W: init, X: 0}, {K: "flush"}}
+				if point >= 1 {
+					ops = append(ops, SOp{K: "ans", W: 1 - init, X: 0}, SOp{K: "dl", W: 1 - init})
+				}
+				if point >= 2 {
+					ops = append(ops, SOp{K: "dl", W: init})
+				}
+				at := len(ops)
+				ops = append(ops, SOp{K: "ans", W: 1 - init, X: 0}, SOp{K: "flush"}, SOp{K: "pp", W: 1, L: 5}, SOp{K: "smp", W: 1 - init, X: 0}, SOp{K: "flush"}, SOp{K: "ans", W: init, X: 0}, SOp{K: "flush"})
+				for rcv := 0; rcv < 2; rcv++ {
+					for x := 0; x < 10; x++ {
+						for _, src := range []int{2, 5, 8, 11} {
+							if !sim.Thorough() && (src == 5 || src == 11) {
+								continue
+							}
+							idx++
+							if idx%sn != si {
+								continue
+							}
+							sim.Judge(t, "C06midsmp", &TwinScript{Cfg: SessCfg{V: v, SeedA: 1760, SeedB: 1861, KeyA: 0, KeyB: 3}, Ops: ops, At: at, R: SOp{W: rcv, I: src, X: x, L: 20 + src, F: src}})
+						}
+					}
+				}
+			}
+		}
+	}
+	sim.MarkCompleted("C06midsmp", true)
 }
 
 // TestProp_C06_AKELossy: the specification lets the side that awaits the Signature message answer a repeated
